@@ -356,7 +356,8 @@ Inductive param := PAbsent | PBad | PNum (v : Z).
 Record request := mkReq {
   q_instant : bool; q_has_query : bool; q_shape : option shape (* None: the LogQL text does not parse / plan *);
   q_dur_s : Z; q_start : param; q_end : param; q_step : param; q_limit : param;
-  q_rows : list row; q_fail_after : Z (* <0: never *); q_query_err : bool }.
+  q_rows : list row; q_fail_after : Z (* <0: never *); q_query_err : bool;
+  q_boot_fail : bool (* cold version cache and one of dbVersion.GetVersionInfo's two statements fails *) }.
 
 Inductive oclass := O2xx | O4xx | O5xx | OCrash | OLeak | OUnknown.
 
@@ -400,7 +401,8 @@ Definition prelude_of (q : request) : prelude :=
         if ms <=? 0 then PResp O4xx else
         match q_shape q with
         | None => PResp O5xx
-        | Some sh => let t := num_of (q_end q) in plan sh q (t - 300) t ms (limit_of 100 (q_limit q))
+        | Some sh => if q_boot_fail q then PResp O5xx   (* prepareOutput: GetVersionInfo error *)
+                     else let t := num_of (q_end q) in plan sh q (t - 300) t ms (limit_of 100 (q_limit q))
         end
       end
     end
@@ -413,7 +415,8 @@ Definition prelude_of (q : request) : prelude :=
       if num_of (q_end q) <? num_of (q_start q) then PResp O4xx else
       match q_shape q with
       | None => PResp O5xx
-      | Some sh => plan sh q (num_of (q_start q)) (num_of (q_end q)) ms (limit_of 0 (q_limit q))
+      | Some sh => if q_boot_fail q then PResp O5xx
+                   else plan sh q (num_of (q_start q)) (num_of (q_end q)) ms (limit_of 0 (q_limit q))
       end
     end.
 
@@ -435,7 +438,8 @@ Definition trace_outcome (rows : list spank) : oclass :=
   class_of_run (fst (run run_fuel false (cells (init_config (map MSpanRow rows) trace_stages)))).
 
 (* ------------------------------------------------------------------ correspondence cases *)
-(* observed: 0 = 2xx, 1 = 4xx, 2 = 5xx, 3 = crash, 4 = leak (goroutine or cursor left behind), 5 = hang, 6 = abort *)
+(* observed: 0 = 2xx, 1 = 4xx, 2 = 5xx, 3 = crash, 4 = leak (goroutine or cursor left behind), 5 = hang, 6 = abort,
+   10 = a healthy request sent afterwards was not answered (the process stopped serving) *)
 Definition code_of (c : oclass) : Z :=
   match c with O2xx => 0 | O4xx => 1 | O5xx => 2 | OCrash => 3 | OLeak => 4 | OUnknown => 9 end.
 
